@@ -161,6 +161,7 @@ func init() {
 }
 
 func c15run(ctx *vc.Ctx) {
+	c15concurrent(ctx)
 	half := map[string]int{"b": 0, "c": 1}
 	dbl := map[string]int{"b": 2, "c": 1}
 	var fams []c15family
